@@ -20,6 +20,8 @@ CONSTANTS MaxSteps,     \* commands per history
                         \* "multi": sessions with several live streams (open, stream, stream, then window changes /
                         \*          stops / searches / lookups on every handle) - ids are renewed on older streams;
                         \* "numeric": open, stream, then two commands whose numeric parameters / ids take the extreme classes;
+                        \* "failuse": open, stream, then commands on the stream of which some FAIL (every err: shape) - the following
+                        \*          ones must behave as if the failed command had not happened;
                         \* "plugin": a log with file transfers opened with the FileTransfer plugin, then FileTransfer `save`
                         \*          commands (succeeding and failing ones) mixed with other commands;
                         \* "onepass": every collect mode (all / none / one_pass_streams) x pause / resume x streams and
@@ -35,15 +37,15 @@ Pick(core, quick, full) == IF Level = "core" THEN core ELSE IF Level = "quick" T
 AOpen    == Pick({"ok", "ok_onepass", "badjson"}, {"ok_nocollect", "missingfile", "ok_plugins", "zip_glob_none", "ok_plugins_dup"},
                  ((OpenOkArgs \ HugeOpenArgs) \cup OpenArchiveEmptyArgs \cup OpenBadArgs))
 APlain   == Pick({""}, {}, {"junk"})
-AStream  == Pick({"ok_filt", "ok_onepass", "badjson"}, {"ok", "badwindow"}, (StreamOkArgs \cup StreamBadArgs))
-AQuery   == Pick({"ok_filt"}, {"badjson", "ok_onepass"}, (StreamOkArgs \cup StreamBadArgs))
+AStream  == Pick({"ok_filt", "ok_onepass", "badjson"}, {"ok", "badwindow"}, ((StreamOkArgs \ PadStreamArgs) \cup StreamBadArgs))
+AQuery   == Pick({"ok_filt"}, {"badjson", "ok_onepass"}, ((StreamOkArgs \ PadStreamArgs) \cup StreamBadArgs))
 AChange  == Pick({"ok", "noarg"}, {"nocomma", "ok_garbage"}, (ChangeOkArgs \cup ChangeBadArgs))
 ABsearch == Pick({"time", "noarg"}, {"index_found", "index_missing", "badkey"}, BsearchArgs)
 ASearch  == Pick({"ok", "noarg"}, {"badjson", "startwrongtype"}, (SearchOkArgs \cup SearchBadArgs))
 APlugin  == Pick({"noplugin"}, {"badjson", "ft_cmd", "rw_cmd"}, PluginArgs)
 AFs      == Pick({"stat_ok", "fakezip_readdir"}, {"badjson", "unknowncmd", "arch_nonexist", "zip_readdir"},
                  (FsOkArgs \cup FsFakeArgs \cup FsBadArgs))
-AUnknown == Pick({"frobnicate"}, {"empty"}, (UnknownArgs \ {"sentinel"}))
+AUnknown == Pick({"frobnicate"}, {"empty"}, (UnknownArgs \ ({"sentinel"} \cup BigUnknownArgs)))
 TargetsBase == Pick({"none", "dead"}, {"nonnum"}, {"old"})
 
 Handles == 1..Len(hs)
@@ -76,6 +78,14 @@ NumericAlphabet ==
   \cup {Cmd("stream_binary_search", a, t) : a \in (NTimeArgs \cup NIndexArgs), t \in HandleTargets}
   \cup {Cmd(v, a, t) : <<v, a>> \in {<<"stop", "">>, <<"stream_change_window", "ok">>, <<"stream_search", "ok">>}, t \in NumTargets}
 NumericShape(c) == /\ ((nsent = 0) = (c.verb = "open")) /\ (nsent = 1 => c = Cmd("stream", "ok_filt", ""))
+FailShapes == {<<"stream_change_window", a>> : a \in ChangeBadArgs}
+              \cup {<<"stream_binary_search", a>> : a \in {"index_missing", "badkey", "nokey", "noarg"}}
+              \cup {<<"stream_search", a>> : a \in SearchBadArgs}
+UseShapes == {<<"stop", "">>, <<"stream_change_window", "ok">>, <<"stream_search", "ok">>, <<"stream_binary_search", "time">>}
+FailUseAlphabet ==
+       {Cmd("open", "ok", ""), Cmd("stream", "ok_filt", "")}
+  \cup {Cmd(p[1], p[2], t) : p \in (FailShapes \cup UseShapes), t \in HandleTargets}
+FailUseShape(c) == /\ ((nsent = 0) = (c.verb = "open")) /\ (nsent = 1 => c.verb = "stream")
 PluginAlphabet ==
        {Cmd("open", a, "") : a \in {"ok_ft", "ok_ft_nosave", "ok_ft_auto", "ok_plugins_dup"}}
   \cup {Cmd("plugin_cmd", a, "") : a \in (PluginCmdOkArgs \cup {"rw_cmd", "noplugin"})}
@@ -100,6 +110,7 @@ FullAlphabet ==
   \cup {Cmd("unknown", a, "") : a \in AUnknown}
 Alphabet == IF Level = "multi" THEN {c \in MultiAlphabet : MultiShape(c)}
             ELSE IF Level = "onepass" THEN {c \in OnePassAlphabet : OnePassShape(c)}
+            ELSE IF Level = "failuse" THEN {c \in FailUseAlphabet : FailUseShape(c)}
             ELSE IF Level = "plugin" THEN {c \in PluginAlphabet : PluginShape(c)}
             ELSE IF Level = "numeric" THEN {c \in NumericAlphabet : NumericShape(c)} ELSE FullAlphabet
 
@@ -170,6 +181,11 @@ TableTotal == \A c \in Alphabet : Allowed(c) # {} /\ Allowed(c) \subseteq {"ok",
 \* a close always succeeds while a file is open, and afterwards a new open succeeds
 CloseThenOpen == /\ (file # "none" => Pol("close", "", "none", file, plug, res, FALSE, FALSE) = {"ok"})
                  /\ (file = "none" => Pol("open", "ok", "none", file, plug, res, FALSE, FALSE) = {"ok"})
+\* an err: (or unknown) reply leaves the session state as it was: file, plugin, and every handle keeps its liveness - only what the
+\* client KNOWS about a query that may have ended can change ("maybe" -> "dead")
+ErrKeepsState == [][(Reply("err") \/ Reply("unknown")) =>
+                      /\ UNCHANGED <<file, plug, res>> /\ Len(hs') = Len(hs)
+                      /\ \A h \in 1..Len(hs) : hs'[h] = hs[h] \/ (hs[h].st = "maybe" /\ hs'[h] = [hs[h] EXCEPT !.st = "dead"])]_vars
 \* liveness: everything sent is answered
 AllAnswered == <>[](pend = <<>>)
 CloseAnswered == [](pend # <<>> /\ Head(pend).verb = "close" => <>(file = "none"))
